@@ -192,6 +192,23 @@ def replay_history(prop, sim, payload, coq_import, proj_term, oracle_history):
     ops = unjson(hist)
     C.ITER_SALT = detail.get("iter_salt") or payload.get("iter_salt")
     r, mtrace = model_trace(prop, sim, ops, coq_import)
+    if (detail.get("presentation") or payload.get("presentation")) == "intlike":
+        # the history was found with explicit integer ids handed over as numpy integers / whole floats: try such presentations
+        from . import hgsim as _H
+
+        class _Const:
+            def __init__(self, x): self.x = x
+            def random(self): return self.x
+        try:
+            for pres in [_Const(0.9), _Const(0.5)] + [random.Random(k) for k in range(10)]:
+                _H.PRESENT = pres
+                r, mtrace = model_trace(prop, sim, ops, coq_import)
+                m0, _ = eval_histories(prop, sim, [r], coq_import, proj_term)
+                if oracle_history(r) or m0:
+                    print("(explicit integer ids presented as numpy integers / whole floats)")
+                    break
+        finally:
+            _H.PRESENT = None
     for i, (op, exc, w, ob) in enumerate(zip(r["ops"], r["excs"], r["warns"], r["obs"])):
         print(f"step {i}: {op}\n   implementation: outcome={exc or 'returns'} warnings={w}")
         for k in ("nodes", "edges", "nattr", "eattr", "uid", "broken"):
